@@ -33,6 +33,7 @@ class Spec:
   keep_backref_order = True
   soft_clauses = ()      # reported, but the state is still expanded
   name_unnamed = ()      # identifiers given to unnamed lines (op "nameit")
+  unname_ops = False     # delete the ID tag of a GFA1 link / containment
 
   def __init__(self, **kw):
     for k, v in kw.items():
@@ -197,6 +198,10 @@ def enabled_ops(g, spec):
     if observe.rt_of(l) in ("L", "C", "E", "G", "O", "U") and not observe.is_virtual(l):
       for nm in spec.name_unnamed:
         ops.append(("nameit", observe.safe_str(l), nm))
+  if spec.unname_ops:
+    for n, l in named:
+      if observe.rt_of(l) in ("L", "C") and not observe.is_virtual(l):
+        ops.append(("deltag", observe.safe_str(l), "ID"))
   if spec.tag_ops:
     for l in lines:
       if observe.rt_of(l) in ("H", "#") or observe.is_virtual(l):
